@@ -22,6 +22,7 @@ func init() {
 		Run: runC07,
 		Controls: []Control{
 			{Name: "own-asn-answers-memoized-per-table", File: "routingtable/adjRIBIn/adj_rib_in.go", Old: "\t\t\tif a.vrf.IsContributingASN(asn) {\n", New: "\t\t\town := a.vrf.IsContributingASN(asn)\n\t\t\ta.sessionAttrs.IBGP = a.sessionAttrs.IBGP || (own && false)\n\t\t\tif own {\n", Expect: "loop-detection-asks-the-vrf-every-time"},
+			{Name: "chain-works-on-the-stored-path", File: "routingtable/filter/chain.go", Old: "\tmp := pa.Copy()\n", New: "\tmp := pa\n", Expect: "policy-works-on-a-copy"},
 			{Name: "nlri-paths-share-the-attribute-object", File: "protocols/bgp/server/fsm_address_family.go", Old: "\t\tpath := f.newRoutePath(bmpPostPolicy, timestamp)\n\t\tf.processAttributes(u.PathAttributes, path)\n\t\tpath.BGPPath.PathIdentifier = r.PathIdentifier\n\n\t\tf.adjRIBIn.AddPath(r.Prefix, path)\n", New: "\t\tpath := f.newRoutePath(bmpPostPolicy, timestamp)\n\t\tf.processAttributes(u.PathAttributes, path)\n\t\tq := *path\n\t\tq.BGPPath.PathIdentifier = r.PathIdentifier\n\n\t\tf.adjRIBIn.AddPath(r.Prefix, &q)\n", Expect: "fresh-path-per-nlri"},
 			{Name: "sender-torn-down-before-routes-are-withdrawn", File: "protocols/bgp/server/fsm_address_family.go", Old: "\tf.adjRIBIn.Unregister(f.rib)\n\tf.rib.Unregister(f.adjRIBOut)\n\tf.adjRIBOut.Unregister(f.updateSender)\n\tf.updateSender.Destroy()\n", New: "\tf.rib.Unregister(f.adjRIBOut)\n\tf.adjRIBOut.Unregister(f.updateSender)\n\tf.updateSender.Destroy()\n\tf.adjRIBIn.Unregister(f.rib)\n", Expect: "withdraw-before-blocking-teardown"},
 			{Name: "manual-stop-droppable", File: "protocols/bgp/server/peer.go", Old: "\t\tfsm.sendEvent(ManualStop)\n", New: "\t\tselect {\n\t\tcase fsm.eventCh <- ManualStop:\n\t\tdefault:\n\t\t}\n", Expect: "stop-event-delivered"},
@@ -35,6 +36,7 @@ func init() {
 }
 
 func runC07(c *core.Ctx) {
+	processCopiesFirst(c, "policy-works-on-a-copy")
 	perNLRILoops(c)
 	loopDetectionAnswersAreNotKept(c)
 	everyFamilyHandled(c, "every-family-torn-down", c.MustFunc(srv+".(*establishedState).uninit"), c.MustFunc(srv+".(*fsmAddressFamily).dispose"))
